@@ -20,8 +20,8 @@ Armed for the two conversion points on the read path: EventBuilder::add_payload_
 (h) bit addressing: every null / value bitmap access in the column layer has the shape `bytes[a / 8] (&|) (1 << (b % 8))`; the byte index and the bit index must be taken from the same row index
 (a and b are copies of one variable) - all writers and readers in engine::core::{column, write} are compared; `bytes[(i - start) / 8] & (1 << (i % 8))` reads another row's bit.
 """
-FLOOR = 10
-REQUIRED = ["C07.a1", "C07.a2", "C07.b", "C07.c", "C07.d", "C07.e", "C07.f", "C07.g", "C07.h", "C07.i"]
+FLOOR = 11
+REQUIRED = ["C07.a1", "C07.a2", "C07.b", "C07.c", "C07.d", "C07.e", "C07.f", "C07.g", "C07.h", "C07.i", "C07.j"]
 
 NUM = {"I64", "U64", "F64", "Bool"}
 
@@ -509,3 +509,50 @@ def run(ctx):
                     bad.append(("payload-fields-unsorted", "ProjectionContext::payload_fields returns the fields of a hash set in iteration order", sp(pf, c.bb)))
         return bad
     ctx.run("C07.i", "K7 PROV", "engine::core::read::projection::{strategies,context}", "the column order of a projection never comes from a hash collection", i_)
+
+    def j_(inst):
+        """A zone's column set is the union of the payload keys of ITS OWN events (plus the core fields): a value of an optional field
+        is written only if its zone has a column for it. WriteJob::build must therefore collect the keys from the events of the zone
+        it is about to write, in that zone's iteration of the loop - not from another zone of the same type, not once per type."""
+        bad = []
+        b = F.fn("WriteJob::build")
+        fe = one(b, r"WriteJob::from_event_with_fields$")
+        outer = [h for h in for_headers(b) if any(l[0] == "param" and l[1] == "zone_plans" for l in b.origins(h.args[0], transparent=NEXT_TRANSPARENT))]
+        if len(outer) != 1:
+            raise AnchorMissing("the loop over zone_plans in WriteJob::build (%d)" % len(outer))
+        oh = outer[0]
+        fields_l = b._origin_locals(fe.args[1])
+        # key-collecting inserts: HashSet::insert into the set handed to from_event_with_fields, with a key that comes from iterating payload keys
+        keyins = []
+        for c in b.calls:
+            if c.cleanup or not re.search(r"Hash(Set|Map).*::insert$|BTreeSet.*::insert$", c.nname) or not (b._origin_locals(c.args[0]) & fields_l):
+                continue
+            L = b.origins(c.args[1])
+            if any(l[0] == "call" and re.search(r"Keys.*::next$|::next$", l[1]) for l in L):
+                keyins.append(c)
+        inst.sites = [sp(b, oh.bb), sp(b, fe.bb)] + [sp(b, c.bb) for c in keyins]
+        if not keyins:
+            bad.append(("zone-fields-not-from-this-zone", "WriteJob::build hands from_event_with_fields a field set that is not collected from payload keys in the body of the zone loop (memoised or computed elsewhere): a zone is written with another zone's column set and optional fields that first appear in a later zone are dropped", sp(b, fe.bb)))
+            return bad
+        # the keys iterated are those of the events of the CURRENT zone plan (the outer loop's element)
+        cur = {l for l, _ in b.flow_forward(oh.dest)}
+        for c in keyins:
+            hs = [h for h in for_headers(b) if any(l[0] == "call" and l[2] == h.bb for l in b.origins(c.args[1]))]
+            ok = False
+            for h in hs:
+                src = h
+                for _ in range(4):
+                    L = set(b.origins(src.args[0])) | set(b.origins(src.args[0], transparent=NEXT_TRANSPARENT))
+                    if any(l[0] == "call" and l[2] == oh.bb for l in L):
+                        ok = True
+                        break
+                    nxt = [l for l in L if l[0] == "call" and l[2] != src.bb]
+                    if not nxt:
+                        break
+                    src = b.call_at(nxt[0][2])
+                    if not src.args:
+                        break
+            if not ok:
+                bad.append(("zone-fields-not-from-this-zone", "the payload keys WriteJob::build collects do not come from the events of the zone plan being written", sp(b, c.bb)))
+        return bad
+    ctx.run("C07.j", "K9 LOOP + K7", "WriteJob::build", "a zone's column set is collected from its own events", j_)
